@@ -55,15 +55,14 @@ structure Holds (cfg : List (Strat × Bool)) (s : State) : Prop where
 
 def C12_full : Prop := ∀ cfg ops, ApiRun ops → Holds cfg (run (init cfg) ops)
 
-/-! ### refutation: two witnesses, both replayed on the real code (corpus/C12) -/
+/-! ### refutation (witness replayed on the real code, corpus/C12) -/
 
-/-- finding C12-F1: `Shutdown` completes inside `trigger`'s unlock window; `tryPassivation` has no
-    running check, so the stopped actor is stopped again: PostStop runs twice -/
-def witnessTwice : List Op := [.adv 1000, .tick [.stop 0] []]
+/-- (fixed, 6f92e10: was finding C12-F1) `Shutdown` completes inside `trigger`'s unlock window; with the
+    running check `tryPassivation` now refuses the stopped actor and PostStop runs once -/
+def witnessStopInWindow : List Op := [.adv 1000, .tick [.stop 0] []]
 
-theorem witnessTwice_api : ApiRun witnessTwice := by unfold ApiRun; decide
-
-theorem witnessTwice_postStops : ((run (init [(.time 1000, false)]) witnessTwice).actors 0).postStops = 2 := by decide
+theorem witnessStopInWindow_postStops :
+    ((run (init [(.time 1000, false)]) witnessStopInWindow).actors 0).postStops = 1 := by decide
 
 /-- finding C12-F2: a message is handled inside the unlock window (after the manager's deadline
     check, before `tryPassivation`): the actor is passivated although it handled a message at
@@ -78,11 +77,10 @@ theorem witnessRace_event :
 
 theorem C12_refuted : ¬ C12_full := by
   intro h
-  have := (h [(.time 1000, false)] witnessTwice witnessTwice_api).once 0
-  rw [witnessTwice_postStops] at this
+  have := (h [(.time 1000, false)] witnessRace witnessRace_api).time 0 _ _ _ _ _ _ _ _ _ _ 1000 false witnessRace_event rfl
   exact absurd this (by decide)
 
-/-- the time clause alone is refuted too (independently of F1) -/
+/-- the same, stated for the time clause alone -/
 theorem C12_time_refuted : ¬ ∀ cfg ops, ApiRun ops →
     ∀ a ll ss sk st su pf rn now latest pr T f,
       Ev.tried a .timer true ll ss sk st su pf rn now latest pr ∈ (run (init cfg) ops).log →
@@ -98,12 +96,12 @@ theorem C12_time_refuted : ¬ ∀ cfg ops, ApiRun ops →
 theorem C12_guards (cfg : List (Strat × Bool)) (ops : List Op) :
     ∀ a src ll ss sk st su pf rn now latest pr,
       Ev.tried a src true ll ss sk st su pf rn now latest pr ∈ (run (init cfg) ops).log →
-      guardsOK ll pf su st = true ∧ ss = false ∧ sk = false := by
+      guardsOK ll pf su st = true ∧ ss = false ∧ sk = false ∧ rn = true := by
   intro a src ll ss sk st su pf rn now latest pr h
   have := log_sound cfg ops _ h
   simp only [evOK, Bool.not_true, Bool.false_or, Bool.and_eq_true, Bool.not_eq_true'] at this
-  obtain ⟨⟨⟨⟨⟨h1, h2⟩, h3⟩, h4⟩, h5⟩, h6⟩ := this
-  simp [guardsOK, h1, h2, h3, h4, h5, h6]
+  obtain ⟨⟨⟨⟨⟨⟨h1, h2⟩, h3⟩, h4⟩, h5⟩, h6⟩, h7⟩ := this
+  simp [guardsOK, h1, h2, h3, h4, h5, h6, h7]
 
 /-- the manager's timer path attempts a passivation only at or after the entry's deadline -/
 theorem C12_decision_after_deadline (cfg : List (Strat × Bool)) (ops : List Op) :
@@ -128,7 +126,7 @@ theorem C12_count (cfg : List (Strat × Bool)) (ops : List Op) :
   obtain ⟨a', p, b, m, hm⟩ := (cinv_reachable cfg ops).fire a g h
   exact ⟨a', p, b, m, hm, C12_count_threshold cfg ops a' g p b m hm⟩
 
-/-! ### PostStop: exactly where the "exactly once" clause fails -/
+/-! ### PostStop exactly once -/
 
 /-- for every configuration and EVERY op sequence: an actor's PostStop count is the number of stops of
     it while running (at most ONE, ever) plus the number of stops performed on it when it was already
@@ -139,13 +137,13 @@ theorem C12_poststop_accounting (cfg : List (Strat × Bool)) (ops : List Op) (a 
     ∧ liveStops (run (init cfg) ops).log a ≤ 1 :=
   ⟨(invO_reachable cfg ops a).1, (invO_reachable cfg ops a).2.1⟩
 
-/-- the once clause holds in every run in which no stop ever reached an already stopped actor — the
-    only way to a second PostStop is the missing running check of `tryPassivation` (C12-F1) -/
-theorem C12_once_partial (cfg : List (Strat × Bool)) (ops : List Op) (a : Nat)
-    (h : Ev.postStop a false ∉ (run (init cfg) ops).log) :
+/-- the once clause, for every configuration and EVERY op sequence (raw ops, any windows): no stop
+    ever reaches a stopped actor (`no_dead_stops`: both `Shutdown` and, since 6f92e10, `tryPassivation`
+    check runningState under stopLocker), so PostStop runs at most once per actor -/
+theorem C12_once (cfg : List (Strat × Bool)) (ops : List Op) (a : Nat) :
     onceOK ((run (init cfg) ops).actors a).postStops = true := by
   have hi := invO_reachable cfg ops a
-  have h0 : deadStops (run (init cfg) ops).log a = 0 := List.count_eq_zero.mpr h
+  have h0 : deadStops (run (init cfg) ops).log a = 0 := List.count_eq_zero.mpr (no_dead_stops cfg ops a)
   simp only [onceOK, decide_eq_true_eq]
   omega
 
@@ -165,13 +163,10 @@ theorem C12_stopped (cfg : List (Strat × Bool)) (ops : List Op) :
       omega
   exact ⟨hi.2.2 hpos, by omega⟩
 
-example : Ev.postStop 0 false ∉ (run (init [(.time 1000, false)]) [.adv 1000, .tick [] [], .simple (.stop 0)]).log := by decide
-
 /-- What survives of `C12_full`, for every configuration and EVERY op sequence (runtime-level or raw,
     any operations inside the unlock windows): the guard clause, the count clause, "passivated ⇒ stopped",
-    the decision-instant form of the time clause, and the once clause whenever no stop reached an
-    already stopped actor.  (Excluded: the literal time clause — C12-F2 — and PostStop-once in runs
-    where `tryPassivation` reaches a stopped actor — C12-F1.) -/
+    the decision-instant form of the time clause, and the once clause.  (Excluded: only the literal time
+    clause — a message handled inside the unlock window, C12-F2.) -/
 theorem C12_partial (cfg : List (Strat × Bool)) (ops : List Op) :
     (∀ a src ll ss sk st su pf rn now latest pr,
         Ev.tried a src true ll ss sk st su pf rn now latest pr ∈ (run (init cfg) ops).log →
@@ -181,12 +176,11 @@ theorem C12_partial (cfg : List (Strat × Bool)) (ops : List Op) :
         ∃ a' p b m, Ev.crossed a' g p b m ∈ (run (init cfg) ops).log ∧ countOK p b m = true) ∧
     (∀ a g now deadline T latest ep ar cur,
         Ev.decide a g now deadline T latest ep ar cur ∈ (run (init cfg) ops).log → deadline ≤ now) ∧
-    (∀ a, Ev.postStop a false ∉ (run (init cfg) ops).log →
-        onceOK ((run (init cfg) ops).actors a).postStops = true) :=
+    (∀ a, onceOK ((run (init cfg) ops).actors a).postStops = true) :=
   ⟨fun a src ll ss sk st su pf rn now latest pr h =>
       ⟨(C12_guards cfg ops a src ll ss sk st su pf rn now latest pr h).1,
        C12_stopped cfg ops a src ll ss sk st su pf rn now latest pr h⟩,
-   C12_count cfg ops, C12_decision_after_deadline cfg ops, fun a h => C12_once_partial cfg ops a h⟩
+   C12_count cfg ops, C12_decision_after_deadline cfg ops, C12_once cfg ops⟩
 
 /-! ### non-vacuity: runs in which these events occur -/
 
